@@ -208,13 +208,20 @@ enum CompressionCodec {
 	Zstandard,
 }
 
+impl CompressionCodec {
+	fn null() -> Self {
+		CompressionCodec::Null
+	}
+}
+
 const HEADER_CONST: [u8; 4] = [b'O', b'b', b'j', 1u8];
 
 #[derive(serde_derive::Deserialize, serde_derive::Serialize)]
 struct Metadata<S, M> {
 	#[serde(rename = "avro.schema")]
 	schema: S,
-	#[serde(rename = "avro.codec")]
+	// "avro.codec": [...] If codec is absent, it is assumed to be "null".
+	#[serde(rename = "avro.codec", default = "CompressionCodec::null")]
 	codec: CompressionCodec,
 	#[serde(flatten)]
 	user_metadata: M,
